@@ -11,7 +11,12 @@ protocluster numbering, candidate clusters and regions with numbering and produc
 bytes antiSMASH writes: HMMDetectionResults.to_json, gather_record_areas, AntismashResults.to_json (record_to_json +
 areas + module results), GenBank text of the record and of every region (dates normalised).
 Oracle: for every (input, order, stage) the dump of every child equals the dump of the first child. A difference
-is reported per stage with the JSON key path (GenBank: feature/qualifier path) where the dumps part.
+is reported per stage with the JSON key path (GenBank: feature type / qualifier path) where the dumps part; the clause
+name `differs:<stage>:<key path>` is the finding key. Facts attached to a difference are structural: the ties of the
+input, and how the area stages of the two children relate (same grouping? which pairs are inverted?).
+The first child runs alone; its timing trims the batch when the machine is too slow for the time budget. Every
+child reports a digest of the antismash sources it imported: children that ran different code (the tree under test
+changed during the run) are not compared and make the run inconclusive.
 """
 from __future__ import annotations
 
@@ -32,7 +37,7 @@ LEVEL = "exploration"
 PARALLEL = True
 RULE = ("inputs of five kinds, each serialised once and replayed by every child in 3 insertion orders: (refine) 1-8 hits "
         "per gene with equal starts / equal scores / exact duplicates, split over several QueryResults; (filter) per-gene "
-        "profile hits with overlap chains and score ties against 0-2 equivalence groups; (hmmer) Pfam-like hits with "
+        "profile hits with overlap chains and score ties (no exact duplicates) against 0-2 equivalence groups; (hmmer) Pfam-like hits with "
         "equal starts and scores; (world) 1.5-20 kb linear/circular records, 2-10 genes, 1-7 rules incl. twins with the "
         "same condition, cutoff and neighbourhood (identical-coordinate protoclusters with different products), "
         "neighbourhoods that clip at both record ends, genes defined by several profiles, run through the real "
@@ -65,6 +70,8 @@ REQUIRED = ["children_clean", "op:stage-compare", "seeds:distinct-hash-probes", 
             "stage:cds_annotations", "stage:areas_json", "stage:results_json", "stage:genbank", "stage:region_genbank",
             "tie:equal-location-protoclusters", "tie:equal-start-hits", "tie:cds-defined-by-several-domains",
             "tie:several-rules", "shape:hybrid-of-equal-location-protoclusters", "shape:region-crosses-origin"]
+
+REQUIRED_THOROUGH = ["seeds:at-least-32-distinct"]
 
 QUICK_SEEDS = [0, 1, 2, 3, 4, 5]
 THOROUGH_SEEDS = list(range(32))
@@ -628,6 +635,8 @@ def run_batch(ctx, cases, children, parallel):
         comparator.finish()
     if len(set(probes.values())) == len(probes) and len(probes) >= 2:
         ctx.count("seeds:distinct-hash-probes", len(probes))
+        if len(probes) >= 32:
+            ctx.count("seeds:at-least-32-distinct")
     ctx.extra["child_wall_s"] = round(ctx.extra.get("child_wall_s", 0) + time.monotonic() - t0, 1)
     ctx.extra["hash_seeds_used"] = sorted(set(ctx.extra.get("hash_seeds_used", [])) | set(probes))
     ctx.extra["children"] = sorted(set(ctx.extra.get("children", [])) | {label for label, _ in done})
@@ -646,7 +655,7 @@ def run(ctx):
         clean = run_batch(ctx, cases, children, parallel=4)
     else:
         # one batch per worker, its 34 children run one after the other (16 workers keep 16 cores busy)
-        cases = gen_cases(ctx, ctx.quota(125, 2000))
+        cases = gen_cases(ctx, ctx.quota(125, 1280))
         clean = run_batch(ctx, cases, children, parallel=1)
     if clean:
         ctx.count("children_clean")
@@ -682,31 +691,6 @@ def _c17_enabled_types(clause, facts):
             and facts.get("n_rules", 0) >= 2)
 
 
-@findings.classifier("c17_definition_domains_set_order")
-def _c17_definition_domains(clause, facts):
-    """ CDSResults.to_json writes list(set) for every definition_domains entry: the order of the domain names in
-        the results JSON follows the string hash seed whenever a CDS is defined by >= 2 domains of one rule.
-        Must not hide: different domain names, or reordering of any other list of the rule results. """
-    stage, path = _stage_path(clause)
-    return (stage in ("detection_results_json", "results_json") and path is not None
-            and path.endswith(".definition_domains.*[]") and facts.get("difference") == "reordered"
-            and facts.get("cds_defined_by_several_domains") is True)
-
-
-@findings.classifier("c17_core_gene_function_set_order")
-def _c17_gene_functions(clause, facts):
-    """ CDSResults.annotate adds one CORE gene function per definition domain while iterating over a set of domain
-        names: the order of the gene_functions qualifier (GenBank, record JSON) follows the string hash seed for a
-        CDS defined by >= 2 domains of one rule.
-        Must not hide: a different set of gene functions, or reordering of any other qualifier. """
-    stage, path = _stage_path(clause)
-    if facts.get("difference") != "reordered" or facts.get("cds_defined_by_several_domains") is not True:
-        return False
-    return ((stage == "cds_annotations" and path == "$[].gene_functions[]")
-            or (stage in ("genbank", "region_genbank") and path == "$.FEATURES.CDS[].qualifiers.gene_functions[]")
-            or (stage == "results_json" and path == "$.records[].features.CDS[].qualifiers.gene_functions[]"))
-
-
 _AREA_JSON = r"(\$\.records\[\]\.areas|\$)\[\]\."
 _K4_PATHS = {
     "candidate_clusters": re.compile(r"^\$\[\]\.(products\[\]|protocluster_numbers\[\]|kind|core|location|number)$"),
@@ -719,7 +703,7 @@ _K4_PATHS = {
                                         r"|cand_cluster\[\]\.(location|qualifiers(\.\w+(\[\])?)?)"
                                         r"|region\[\]\.qualifiers\.(product|rules|candidate_cluster_numbers)\[\])$"),
 }
-_K5_PATHS = {
+_UNIQUE_ORDER_PATHS = {
     "regions": re.compile(r"^\$\[\]\.unique_protoclusters\[\]$"),
     "areas_json": re.compile("^" + _AREA_JSON + r"(candidates\[\]\.protoclusters\[\]"
                                                  r"|protoclusters\.\*\.(product|start|end|core_start|core_end|category|tool))$"),
@@ -742,34 +726,25 @@ def _c17_formation_order(clause, facts):
         both record ends) keep set iteration order, which follows object addresses. Member order of a candidate
         (hence product / rule order of candidates and regions) and the numbering of equal-location SINGLE candidates
         change between runs; the grouping itself does not.
+        Region.get_unique_protoclusters (a dict in member order, sorted by location) and the protocluster indices of
+        records.areas inherit that order.
         Must not hide: a different grouping, kind or extent of any candidate or region; order changes among
-        protoclusters whose coordinates differ; any difference before formation (hits, anchors, protoclusters,
-        protocluster numbering) or in features other than cand_cluster / region qualifiers derived from the order. """
+        protoclusters whose coordinates differ; in an origin-crossing region, order changes among equal-coordinate
+        protoclusters of different products (the product tie-break of get_unique_protoclusters); any difference
+        before formation (hits, anchors, protoclusters, protocluster numbering) or in features other than
+        cand_cluster / region qualifiers derived from the order. """
     stage, path = _stage_path(clause)
     if stage is None or not _path_allowed(_K4_PATHS, stage, path):
         return False
+    if _path_allowed(_UNIQUE_ORDER_PATHS, stage, path) and facts.get("unique_protocluster_order_differs") is True:
+        # Region.get_unique_protoclusters orders by (start, -length, product) in origin-crossing regions: there only
+        # equal-coordinate protoclusters of one product may follow the member order of the candidates
+        if not (facts.get("unique_order_differs_only_where_locations_do_not_order") is True
+                and (facts.get("unique_order_differs_only_in_regions_not_crossing_origin") is True
+                     or facts.get("unique_order_differs_only_among_equal_location_and_product") is True)):
+            return False
     return (facts.get("protocluster_numbering_equal") is True
             and facts.get("candidate_groups_equal") is True
             and facts.get("region_groups_equal") is True
             and facts.get("candidate_order_differs_only_where_locations_do_not_order") is True
             and (facts.get("candidate_member_order_differs") is True or facts.get("candidate_numbering_differs") is True))
-
-
-@findings.classifier("c17_region_unique_protocluster_set_order")
-def _c17_region_unique_order(clause, facts):
-    """ Region.get_unique_protoclusters sorts a set of protoclusters: with the location-only comparison (regions not
-        crossing the origin) protoclusters of identical coordinates keep set iteration order; in origin-crossing
-        regions the key (start, -length, product) leaves equal-coordinate protoclusters of one product in set order.
-        The numbering of protoclusters in records.areas follows object addresses.
-        Must not hide: order changes among protoclusters of different coordinates, or of different products and
-        equal coordinates in an origin-crossing region (the product tie-break), a different set of protoclusters,
-        or other keys. """
-    stage, path = _stage_path(clause)
-    if stage is None or not _path_allowed(_K5_PATHS, stage, path):
-        return False
-    if not (facts.get("protocluster_numbering_equal") is True and facts.get("region_groups_equal") is True
-            and facts.get("unique_protocluster_order_differs") is True):
-        return False
-    return ((facts.get("unique_order_differs_only_in_regions_not_crossing_origin") is True
-             and facts.get("unique_order_differs_only_where_locations_do_not_order") is True)
-            or facts.get("unique_order_differs_only_among_equal_location_and_product") is True)
